@@ -156,6 +156,12 @@ def analyse_function(qual, cls, fn):
                         continue
                     if isinstance(base, ast.Name) and base.id == "self" and cls == "FmtStr" and e.attr in MEMO:
                         continue
+                    if isinstance(base, ast.Name) and base.id == "self" and cls == "FmtStr" and e.attr.startswith("_") and \
+                            isinstance(n, (ast.Assign, ast.AnnAssign)):
+                        # a further private memo slot on the value itself: not a change of the value; whether it can go stale
+                        # is a memo question, decided by the bounded programs (and a contract, once one exists) -> undecided
+                        problems.append(f"UNDECIDED line {e.lineno}: new private slot {ast.unparse(e)} written by a FmtStr method")
+                        continue
                     if isinstance(base, ast.Name) and base.id in fresh_names and e.attr in MEMO:
                         # not a frame violation (the object is new); whether the value is the fresh one is a memo
                         # obligation of the function's own contract / the bounded suite -> undecided here
